@@ -73,6 +73,9 @@ def run(ctx):
             raise tlc.MachineryError(f"self-test: defect constant {const} was not refuted by TLC")
         ctx.note(f"self-test: {const}=TRUE refuted by TLC ({','.join(res.violated)})")
 
+    # the exhaustive enumerator in the shape of the code: bag = valid reconciliations, each once
+    exh_inputs = [i for i in inputs if len(i["ot"]) <= 7][:(6000 if thorough else 2500)]
+    exhaustive_model(ctx, exh_inputs, probe[:400])
     ctx.stage('selftest')
     # E2: expectations from L0, replay through the real code
     expect = dc.tlc_generate(ctx, inputs, "THL SpecGen (L0 expectations, L1 = L0)")
@@ -126,6 +129,31 @@ def run(ctx):
                       {"engine": "E3", "algo": f"{event['op']}_{event['policy'].lower()}", "input": event["in"],
                        "clauses": clauses, "observed": {"exc": event["exc"], "sols": event["sols"][:10],
                                                        "costs": event["costs"][:10]}})
+
+
+def exhaustive_model(ctx, inputs, probe):
+    import os
+    import shutil
+    wdir = tlc.make_workdir("verif-exh-")
+    try:
+        for name, ins, stop, invs in (("Exhaustive.tla: generate_all (code-shaped) = valid reconciliations, each once", inputs, "FALSE", True),
+                                      ("StopEarly", probe, "TRUE", False)):
+            path = gen.write_mc(wdir, "Exhaustive", ins)
+            cfg = os.path.join(wdir, "exh.cfg")
+            tlc.write_cfg(cfg, spec="Spec", constants={"Inputs": "<- MCInputs", "SpShapes": "<- MCSp", "StopEarly": stop},
+                          invariants=["ExactInv"])
+            res = tlc.run(path, cfg, workdir=wdir)
+            if invs:
+                ctx.add_tlc(name, res)
+                if not res.ok:
+                    ctx.violation("specification (Exhaustive): ExactInv violated",
+                                  {"engine": "E1", "trace": tlc.counterexample(res)[:4000]})
+            elif res.ok:
+                raise tlc.MachineryError("self-test: StopEarly = TRUE was not refuted by TLC")
+            else:
+                ctx.note("self-test: Exhaustive!StopEarly=TRUE refuted by TLC")
+    finally:
+        shutil.rmtree(wdir, ignore_errors=True)
 
 
 def replay_known(ctx):
